@@ -27,7 +27,12 @@ pub struct Node {
     pub shallow: Cell<bool>,
     /// the destructor releases stored handles through into_raw + decrement_strong_count
     pub raw_release: Cell<bool>,
+    /// the next `Clone::clone` of this value panics before it does anything (one shot)
+    pub clone_bomb: Cell<bool>,
 }
+
+/// Payload of the panic raised by an armed `clone_bomb`.
+pub struct CloneBombPanic;
 
 impl Node {
     pub fn new(id: u32) -> Node {
@@ -39,6 +44,7 @@ impl Node {
             script: RefCell::new(Vec::new()),
             shallow: Cell::new(false),
             raw_release: Cell::new(false),
+            clone_bomb: Cell::new(false),
         }
     }
 }
@@ -198,6 +204,11 @@ impl Clone for Node {
     /// Used by `Rc::make_mut` only. The clone is a new object: it owns new handles to the same
     /// targets; no adoption is recorded for them.
     fn clone(&self) -> Node {
+        if self.clone_bomb.replace(false) {
+            // user code failing inside make_mut, before anything was copied: the call must leave
+            // every handle, count and table exactly as it found them and release its scratch box
+            std::panic::panic_any(CloneBombPanic);
+        }
         let prev = alloc::enter_user();
         let src = self.id;
         let new_id = world::with(|w| w.next_id());
